@@ -107,6 +107,7 @@ func specRecLen(n uint32) uint32 { return (16 + n + 31) / 32 * 32 }
 //	$lost    amount dropped by saturating steps (values "stick"); every
 //	         increase is asserted non-negative and zero below the limits
 
+//@ ghost tried int
 //@ ghost ledger wide
 //@ ghost rd int
 //@ ghost lk int
@@ -467,6 +468,11 @@ func specMapped(m *mappedFile) bool {
 //@   loop 3: invariant specMapped(m) && (m == orig || (fresh(m) && fresh(m.mapping) && fresh(m.mapping.Data))) && next != nil && len(name) <= maxNameLen && headOff <= 544+4+511*4
 //@   loop 4: invariant specMapped(m) && (m == orig || (fresh(m) && fresh(m.mapping) && fresh(m.mapping.Data))) && next != nil && 0 <= n && n <= maxLinks+1 && len(name) <= maxNameLen && headOff <= 544+4+511*4
 //@   loop 4: decreases maxLinks+1-n
+// The duplicate check after a lost link race scans from the new head back to the
+// head this writer tried to link in front of (so every record linked by others in
+// between is compared with the name).
+//@   at call cas32#2: ghost $tried = int(arg2)
+//@   at loop 4 entry: assert int(old) == $tried && off == head
 //@   at call cas32#1: assert int64(end) <= int64(len(m.mapping.Data))
 // Progress of the reserve loop: a successful extend returns a mapping that
 // covers the record about to be reserved (so the same placement is not retried
@@ -474,7 +480,7 @@ func specMapped(m *mappedFile) bool {
 //@   at call extend#1: after assert result1 == nil ==> int64(len(result0.mapping.Data)) >= int64(arg1)
 //@   at call cas32#1: assert specPlaceOK(m.hdrLen, limit, len(name)) ==> end > limit && end%32 == 0 && end > specFirst(m.hdrLen, limit)
 //@   at call writeEntryAt#1: assert specPlaceOK(m.hdrLen, limit, len(name)) ==> specFirst(m.hdrLen, limit) <= start && int64(start)+16+int64(len(name)) <= int64(end)
-//@   modifies elems(m.mapping.Data), $minsize, $fsops
+//@   modifies elems(m.mapping.Data), $minsize, $fsops, $tried
 
 // ---------------------------------------------------------------------------
 // C05: the file object shared by all counters.
